@@ -394,3 +394,57 @@ func HarnessC14PreviousIncarnation() {
 	}
 	zz.Assert("at-most-one-active-at-the-end", n <= 1)
 }
+
+// HarnessC14TerminatingRevision: the Active revision of the package is being
+// deleted - it carries a deletion timestamp and is held by a finalizer - when
+// the package's source moves to a new digest. It is still there and still
+// Active, so it is deactivated before the new revision is activated: at no
+// instant are two revisions Active, and the new revision's number is above it.
+//
+//gosym:harness
+//gosym:cover terminating
+func HarnessC14TerminatingRevision() {
+	zzPkgName = "provider-x"
+	s := kube.New()
+	s.Register(&v1.Provider{}, &v1.ProviderList{}, zzPkgGroup, "Provider")
+	s.Register(&v1.ProviderRevision{}, &v1.ProviderRevisionList{}, zzPkgGroup, "ProviderRevision")
+	p := &v1.Provider{ObjectMeta: metav1.ObjectMeta{Name: zzPkgName, UID: zzPkgUID}}
+	p.Spec.Package = "xpkg.example.org/org/provider-x:v1.0.0"
+	s.Put(p)
+	now := metav1.Now()
+	old := &v1.ProviderRevision{ObjectMeta: metav1.ObjectMeta{
+		Name:              zzRevNames[0],
+		Labels:            map[string]string{v1.LabelParentPackage: zzPkgName},
+		Finalizers:        []string{"revision.pkg.crossplane.io"},
+		DeletionTimestamp: &now,
+		OwnerReferences: []metav1.OwnerReference{{
+			APIVersion: v1.SchemeGroupVersion.String(), Kind: "Provider", Name: zzPkgName, UID: zzPkgUID,
+			Controller: ptr.To(true), BlockOwnerDeletion: ptr.To(true),
+		}},
+	}}
+	old.Spec.Revision = 1 + zz.Int64("old.number")
+	zz.Assume(old.Spec.Revision >= 1)
+	zz.Assume(old.Spec.Revision < 1<<40)
+	old.Spec.Package = "xpkg.example.org/org/provider-x:v0.9.0"
+	old.Spec.DesiredState = v1.PackageRevisionActive
+	s.Put(old)
+	zz.Cover("terminating")
+
+	s.OnMutate = zzAtMostOneActive(s)
+	r := zzReconciler(s, zzNewRev)
+	_, err := r.Reconcile(context.Background(), reconcile.Request{NamespacedName: types.NamespacedName{Name: zzPkgName}})
+	zz.Assert("reconcile-no-error", err == nil)
+	var oldNum, newNum int64 = -1, -1
+	for _, rv := range zzStoredRevisions(s) {
+		if rv.name == zzRevNames[0] {
+			oldNum = rv.number
+			zz.Assert("terminating-revision-is-deactivated", !rv.active)
+		}
+		if rv.name == zzNewRev {
+			newNum = rv.number
+		}
+	}
+	if oldNum >= 0 && newNum >= 0 {
+		zz.Assert("current-revision-numbered-above-the-terminating-one", newNum > oldNum)
+	}
+}
